@@ -62,6 +62,11 @@ def _make(minlen, maxlen, idx):
         dl = Dict(CInt, List(Int, maxlen=3))
         si = Set(Int)
         sc = Set(CInt)
+
+        if idx % 2:
+            # an owner that is "empty" in the eyes of bool(): still an owner
+            def __len__(self):
+                return 0
     Holder.__name__ = name
     Holder.__qualname__ = name
     Holder.__module__ = __name__
